@@ -74,6 +74,18 @@ func inputs(thorough bool) []input {
 		{"tokens-250", colList(125)},
 		{"tokens-1000", colList(500)},
 	}
+	// every clause form of the model grammar (join kinds, derived tables on either side of a join, LATERAL,
+	// grouping sets, CTE forms, window frames ...): each has its own poll sites and hand-maintained depth accounting
+	seen := map[string]bool{}
+	sqlgen.ClauseOptions(func(name string, s sqlgen.S) {
+		if strings.HasPrefix(name, "fetch") || strings.HasPrefix(name, "for") || strings.HasPrefix(name, "order:") || (strings.HasPrefix(name, "frame") && !thorough) {
+			return
+		}
+		if sql := s.SQL(); !seen[sql] {
+			seen[sql] = true
+			in = append(in, input{"clause:" + name, sql})
+		}
+	})
 	if !thorough {
 		return in
 	}
